@@ -24,7 +24,7 @@ RULE = ("for every message type of the corpus: (1) a fresh message reads every f
         "which_one_of / serialized_on_wire) must equal google.protobuf's HasField / WhichOneof; (3) random pairs and "
         "triples of fields. distinct = distinct (type, field set, value classes, route).")
 ASSUMPTIONS = [
-    "is_set() is compared for proto3-optional fields only (for other fields lazy default materialisation flips it; proto3 defines no presence there)",
+    "is_set() is compared for proto3-optional fields and oneof members (for other fields lazy default materialisation flips it; proto3 defines no presence there)",
     "a non-optional Timestamp/Duration has no presence in betterproto (documented epoch / zero default): only its value is compared",
     "the from_dict route passes python-typed values keyed by the generated field name (dict path)",
     "ruff is replaced by an identity stand-in when the plugin formats its output",
@@ -173,6 +173,11 @@ def bp_presence(b, mi, m):
         nm = names[fi.number]
         if fi.label == "oneof":
             out[fi.number] = (sel[fi.group] == nm)
+            try:
+                if m.is_set(nm) != (sel[fi.group] == nm):
+                    out[("is_set", fi.number)] = m.is_set(nm)
+            except Exception:
+                out[("is_set", fi.number)] = "raised"
         elif fi.label == "optional":
             v = getattr(m, nm)
             out[fi.number] = v is not None
@@ -283,6 +288,44 @@ def check_tree(b, bp, ref, mi, tree, classes, res: Result, w, routes=ROUTES):
             if sel != want:
                 res.violation("which-oneof-after-decode", [route, "oneof", f"bp={bool(sel)}", f"ref={bool(rsel)}"],
                               f"{mi.full_name}: which_one_of({g})={sel!r} but reference WhichOneof={rsel!r} on {data.hex()[:160]}", ww)
+
+
+def _use_defaults_in_place(b, ref, mi):
+    """a history on OTHER objects: lazily created default sub-messages are used in place (parse(b""), from_dict({}),
+    self-assignment), every oneof member is selected by decoding reference bytes, then everything is dropped"""
+    cls = b.bp_class(mi.full_name)
+    names = attr_names(cls)
+    for fi in mi.fields:
+        nm = names.get(fi.number)
+        if nm is None:
+            continue
+        try:
+            if fi.kind == "message" and fi.wkt is None and fi.label == "singular":
+                a = cls()
+                getattr(a, nm).parse(b"")
+                a2 = cls()
+                getattr(a2, nm).from_dict({})
+                a3 = cls()
+                setattr(a3, nm, getattr(a3, nm))
+                bytes(a), bytes(a2), bytes(a3)
+            if fi.label == "oneof":
+                r = b.ref_class(mi.full_name)()
+                if fi.kind == "message":
+                    getattr(r, fi.name).SetInParent()
+                elif fi.kind in ("string",):
+                    setattr(r, fi.name, "")
+                elif fi.kind == "bytes":
+                    setattr(r, fi.name, b"")
+                elif fi.kind in ("float", "double"):
+                    setattr(r, fi.name, 0.0)
+                elif fi.kind == "bool":
+                    setattr(r, fi.name, False)
+                else:
+                    setattr(r, fi.name, 0)
+                a = cls().parse(r.SerializeToString())
+                a.to_dict(), bytes(a)
+        except Exception:
+            pass
 
 
 def check_fresh(b, mi, res: Result, w):
@@ -429,6 +472,10 @@ def run_shard(shard) -> Result:
                             t[fi.number] = v
                             cl[fi.number] = _is_default(fi, v)
                         check_tree(b, bp, ref, mi, t, cl, res, w, routes=("ctor", "attr", "parse", "from_dict"))
+                # whatever happened to OTHER objects of this class: a freshly constructed message is fresh again
+                _use_defaults_in_place(b, ref, mi)
+                check_fresh(b, mi, res, dict(w, after="in-place-use-of-lazily-created-defaults-on-other-objects"))
+                res.note("fresh_after_history")
             except Exception as e:
                 res.inconclusive.append(f"oracle crashed on {mi.full_name}: {type(e).__name__}: {e}\n{traceback.format_exc()[-1500:]}")
                 break
